@@ -377,7 +377,7 @@ func TestTargetStatementsPhase2(t *testing.T) {
 	check(`GetTransactionWithVolumes pit=false volumes=true`,
 		`metadata={} id=3 reference= reverted_at=<nil> metadata={} post_commit_effective_volumes=`+tx3+` post_commit_volumes=`+tx3)
 	check(`GetTransactionWithVolumes pit=true volumes=true`,
-		`id=3 reference= reverted_at=<nil> metadata={} metadata={} case=<nil> post_commit_effective_volumes=`+tx3+` post_commit_volumes=`+tx3)
+		`id=3 reference= reverted_at=<nil> metadata={} metadata={} reverted_at=<nil> post_commit_effective_volumes=`+tx3+` post_commit_volumes=`+tx3)
 	check(`CountTransactions pit=false volumes=false filter=`, "count=5")
 	check(`CountTransactions pit=true volumes=true filter=`, "count=4")
 	ids := func(label string) string {
